@@ -364,7 +364,7 @@ class AstMixin:
         arbitrary iteration and re-establish (path ends), or leave the loop with the negated guard."""
         qn = env.fctx.qualname
         ns = _NS(self, env)
-        self.oblige(spec.invariant(ns), f"{qn}#loop{ordinal}.init", kind="loop-init", site=self._site)
+        self.oblige(spec.invariant(ns, getattr(self, 'contract_ns', None)), f"{qn}#loop{ordinal}.init", kind="loop-init", site=self._site)
         assigned = sorted(_assigned_names(st))
         for name in assigned:
             cur = env.vars.get(name, _MISSING)
@@ -376,8 +376,8 @@ class AstMixin:
                 env.vars[name] = sym.fresh_int(name)
             else:
                 raise Unsupported(f"loop havoc of non-integer variable {name}")
-        self.assume(spec.invariant(ns))
-        v0 = spec.variant(ns) if spec.variant is not None else None
+        self.assume(spec.invariant(ns, getattr(self, 'contract_ns', None)))
+        v0 = spec.variant(ns, getattr(self, 'contract_ns', None)) if spec.variant is not None else None
         if self.truth(self.eval(st.test, env)):
             try:
                 self.exec_block(st.body, env)
@@ -385,9 +385,9 @@ class AstMixin:
                 return
             except _Continue:
                 pass
-            self.oblige(spec.invariant(ns), f"{qn}#loop{ordinal}.preserve", kind="loop-preserve", site=self._site)
+            self.oblige(spec.invariant(ns, getattr(self, 'contract_ns', None)), f"{qn}#loop{ordinal}.preserve", kind="loop-preserve", site=self._site)
             if v0 is not None:
-                v1 = spec.variant(ns)
+                v1 = spec.variant(ns, getattr(self, 'contract_ns', None))
                 self.oblige(sym.And(v0 >= 0, v1 < v0), f"{qn}#loop{ordinal}.variant", kind="loop-variant", site=self._site)
             raise PathEnd()
         self.exec_block(st.orelse, env)
